@@ -66,8 +66,9 @@ PROPS = {
             "str::replace / to_lowercase (ASCII identifiers) / BTreeMap order as modelled there; usize = 64 bit",
             "gen/tr_gsd.py: rule enumeration and grammar value from gsd.pest, scalar fields/types/defaults and SupportedSpeeds masks from lib.rs, the "
             "key -> action table of the top-level setting match and the data type names from parser.rs (regenerated on this run)",
-            "GsdShape.child_rx: which inner pairs a pair of a rule can have, derived from the grammar value (terminals/predicates/silent skipping rules "
-            "contribute none, silent rules inlined, atomic rules childless) - validated against pest: shapeb holds for every real pair tree of this run",
+            "coq/Model/Peg.v: PEG interpreter with pest's semantics (implicit skipping, atomic/silent rules, lookahead, pair production), written from "
+            "pest_generator's generator.rs - validated against the real pest parser at tree level on every case of this run; the shape predicate "
+            "(GsdShape.child_rx) is PROVED to hold for every tree Peg.v returns and is additionally checked on every real pair tree",
             "the harness's GSD pretty-printer and description generator (fidelity oracle: parse(render(d, style)) = d)",
         ],
         "technique": "Coq proof (totality of the interpretation step over all grammar-shaped pair trees; settings-fragment round trip) + differential "
@@ -85,16 +86,20 @@ PROPS = {
                       "tree) is trusted and only tested; the hand model of the interpretation step is validated differentially, not verified against Rust.",
         "partial_gap": "PROVED: (1) C19_interp_total / C19_interp_never_panics - for all pair trees t with Shape t (the grammar-derived shape), interp t is "
                        "Ok or Err, never a panic (all statement kinds, all helpers, post-processing); C19_tree_shape - the run-time checker shapeb decides "
-                       "Shape. (2) C19_roundtrip_settings_partial - for files consisting of key = number|string settings (known non-special keys in any "
+                       "Shape; C19_peg_tree_shape / C19_text_level_no_panic - every pair tree that the PEG model of pest (Model/Peg.v) returns for ANY text "
+                       "has that shape, hence no accepted text can make the interpretation panic. "
+                       "(2) C19_roundtrip_settings_partial - for files consisting of key = number|string settings (known non-special keys in any "
                        "letter case, or unknown keys; numbers as any decimal/0x-hex digit string within the field's type; strings without back slash, cut "
                        "by any line continuation markers; any preamble; no field written twice) the interpretation of the pair tree yields exactly the "
                        "written values, or-ed speed flags and defaults elsewhere; C19_settings_tree_shape. "
-                       "ONLY VALIDATED (differential, this run's cases): that pest produces those trees from the text (white space, comments, line ends, "
-                       "CR/LF, preamble - checked per case: shapeb on every real tree, and every settings-only file's real tree equals settings_tree of its "
-                       "decoded items); fidelity for Modular_Station/Max_Module, PrmText, ExtUserPrmData, modules, slots, Ext_/User_Prm_Data, unit "
-                       "diagnostics (oracle parse(render(d, style)) = d on the implementation); that pest itself never panics (tested only). "
-                       "NOT DONE: the PEG interpreter Peg.v (DESIGN 4/10 fall-back taken: the model starts at the pair tree), C19_parse_total.",
-        "design_ref": "DESIGN.md section 4, C19 (fall-back of section 10: pest is a named oracle)",
+                       "ONLY VALIDATED (differential, this run's cases): that the real pest library behaves like Peg.v (same accept/reject verdict and "
+                       "identical pair tree incl. leaf texts on every valid-UTF-8 case) and never panics itself; that pest maps the rendered text to the "
+                       "tree of the theorem (white space, comments, line ends, CR/LF, preamble: every settings-only file's real tree equals settings_tree "
+                       "of its decoded items); fidelity for Modular_Station/Max_Module, PrmText, ExtUserPrmData, modules, slots, Ext_/User_Prm_Data, unit "
+                       "diagnostics (oracle parse(render(d, style)) = d on the implementation). "
+                       "NOT DONE: C19_parse_total (termination of the PEG model within a linear fuel bound for all texts; peg_parse may in principle "
+                       "return OutOfFuel - it never did on this run's cases), a text-level round trip theorem through Peg.v.",
+        "design_ref": "DESIGN.md section 4, C19 (pest itself remains a named, differentially validated oracle: section 10)",
         "assumptions": ["input is what gsd_parser::parse_from_file passes on: String::from_utf8_lossy of the file bytes",
                         "entry points gsd_parser::parser::parse / parse_with_warnings (parse_from_file itself panics on Err by design)",
                         "64-bit usize"],
